@@ -363,6 +363,11 @@ func c15R3(e *Engine) {
 			if bad == "" && ranges < 2 {
 				bad = fmt.Sprintf("dispatch is inside %d range loops, expected the tables × requests double loop", ranges)
 			}
+			if bad == "" {
+				if _, why := e.visitsEveryElement(di, nil); why != "" {
+					bad = why + " – they are neither applied nor reported as unprocessed"
+				}
+			}
 			if bad != "" {
 				e.fail("R3", construct+":dispatch-unconditional", e.ipos(di), "%s", bad)
 			} else {
@@ -587,7 +592,19 @@ func c15R4(e *Engine) {
 				}
 			}
 		})
-		e.check(okStore, "R4", role+".forceFailureErr:single-writer", e.pos(setter.Pos()), "%s is the only writer and stores emulatingErrors[condition]", e.fname(setter))
+		// the store happens on every path through the setter (a conditional early return would make some switches no-ops)
+		uncond := false
+		instrs(setter, func(in ssa.Instruction) {
+			st, ok := in.(*ssa.Store)
+			if !ok || fieldOf(st.Addr) != ff {
+				return
+			}
+			entry := setter.Blocks[0].Instrs[0]
+			if e.ipostdominates(st, entry) {
+				uncond = true
+			}
+		})
+		e.check(okStore && uncond, "R4", role+".forceFailureErr:single-writer", e.pos(setter.Pos()), "%s is the only writer, stores emulatingErrors[condition] (%v) on every path (%v): every activation, switch and deactivation takes effect", e.fname(setter), okStore, uncond)
 		// the switches
 		want := map[string]string{"ActiveForceFailure": "Deprecated", "DeactiveForceFailure": "None", "EmulateFailure": "<param>"}
 		for _, sw := range sortedKeys(want) {
